@@ -1343,3 +1343,114 @@ size_t tickit_renderbuffer_get_span(TickitRenderBuffer *rb, int line, int startc
   }
   return len;
 }
+
+#ifdef LIBTICKIT_VERIF
+/* Verification hook (add-only, compiled only with -DLIBTICKIT_VERIF): prints the raw state of
+ * a render buffer on one line - every cell as stored, not filtered by translation and clip -
+ * and the auxiliary state (cursor, translation, clip, pen, stack).  Reads only.
+ */
+static void verif_dump_pen(const TickitPen *pen, FILE *fh)
+{
+  fputc('{', fh);
+  if(pen) {
+    int first = 1;
+    for(TickitPenAttr attr = 1; attr < TICKIT_N_PEN_ATTRS; attr++) {
+      if(!tickit_pen_has_attr(pen, attr))
+        continue;
+      fprintf(fh, "%s%s=", first ? "" : ",", tickit_penattr_name(attr));
+      first = 0;
+      switch(tickit_penattr_type(attr)) {
+        case TICKIT_PENTYPE_BOOL:
+          fprintf(fh, "%d", tickit_pen_get_bool_attr(pen, attr));
+          break;
+        case TICKIT_PENTYPE_INT:
+          fprintf(fh, "%d", tickit_pen_get_int_attr(pen, attr));
+          break;
+        case TICKIT_PENTYPE_COLOUR:
+          fprintf(fh, "%d", tickit_pen_get_colour_attr(pen, attr));
+          if(tickit_pen_has_colour_attr_rgb8(pen, attr)) {
+            TickitPenRGB8 v = tickit_pen_get_colour_attr_rgb8(pen, attr);
+            fprintf(fh, "#%02x%02x%02x", v.r, v.g, v.b);
+          }
+          break;
+      }
+    }
+  }
+  else
+    fputs("NULL", fh);
+  fputc('}', fh);
+}
+
+void tickit_renderbuffer_verif_dump(TickitRenderBuffer *rb, FILE *fh);
+void tickit_renderbuffer_verif_dump(TickitRenderBuffer *rb, FILE *fh)
+{
+  fprintf(fh, "sz=%d,%d vc=%d,%d,%d xl=%d,%d clip=%d,%d,%d,%d pen=",
+      rb->lines, rb->cols,
+      (int)rb->vc_pos_set, rb->vc_line, rb->vc_col,
+      rb->xlate_line, rb->xlate_col,
+      rb->clip.top, rb->clip.left, rb->clip.lines, rb->clip.cols);
+  verif_dump_pen(rb->pen, fh);
+
+  fprintf(fh, " depth=%d stack=[", rb->depth);
+  for(RBStack *stack = rb->stack; stack; stack = stack->prev) {
+    if(stack->pen_only)
+      fputs("P", fh);
+    else
+      fprintf(fh, "F%d,%d,%d,%d,%d,%d,%d,%d",
+          stack->vc_line, stack->vc_col, stack->xlate_line, stack->xlate_col,
+          stack->clip.top, stack->clip.left, stack->clip.lines, stack->clip.cols);
+    verif_dump_pen(stack->pen, fh);
+    if(stack->prev)
+      fputc(';', fh);
+  }
+  fputs("] cells=", fh);
+
+  for(int line = 0; line < rb->lines; line++) {
+    if(line)
+      fputc('/', fh);
+    for(int col = 0; col < rb->cols; col++) {
+      RBCell *cell = &rb->cells[line][col];
+      if(col)
+        fputc(' ', fh);
+      switch(cell->state) {
+        case SKIP:
+          fprintf(fh, "S%dm%d", cell->cols, cell->maskdepth);
+          break;
+        case CONT:
+          fprintf(fh, "C%dm%d", cell->startcol, cell->maskdepth);
+          break;
+        case TEXT:
+          fprintf(fh, "T%dm%d", cell->cols, cell->maskdepth);
+          verif_dump_pen(cell->pen, fh);
+          {
+            const char *s = tickit_string_get(cell->v.text.s);
+            size_t len = tickit_string_len(cell->v.text.s);
+            if(!len)
+              fputc('-', fh);
+            for(size_t i = 0; i < len; i++)
+              fprintf(fh, "%02x", (unsigned char)s[i]);
+          }
+          fprintf(fh, "+%d", cell->v.text.offs);
+          break;
+        case ERASE:
+          fprintf(fh, "E%dm%d", cell->cols, cell->maskdepth);
+          verif_dump_pen(cell->pen, fh);
+          break;
+        case LINE:
+          fprintf(fh, "L%dm%d", cell->cols, cell->maskdepth);
+          verif_dump_pen(cell->pen, fh);
+          fprintf(fh, "x%d", cell->v.line.mask);
+          break;
+        case CHAR:
+          fprintf(fh, "H%dm%d", cell->cols, cell->maskdepth);
+          verif_dump_pen(cell->pen, fh);
+          fprintf(fh, "u%d", cell->v.chr.codepoint);
+          break;
+        default:
+          fprintf(fh, "?%d", (int)cell->state);
+          break;
+      }
+    }
+  }
+}
+#endif
